@@ -15,6 +15,7 @@ func checkC03(c *Check) {
 	c.readerFraming("C03.1 framing")
 	c.readerHandoff()
 	c.updateBodyPrivate("C03.3 delivered-slice-private")
+	c.messageResults("C03.3 delivered-bytes")
 	c.handlerDiscipline("C03.4 handler-discipline")
 	c.holdTimerDrainAndReset("C03.4 no-spurious-expiry")
 	c.writeUpdateContract("C03.4 handler-not-wedged")
